@@ -89,7 +89,7 @@
 //! [`std::io::Write`].
 //!
 //! The [`ClassFile::length`] function gives the computed length of a class file, useful for allocating sufficient memory for buffers.
-use macros::notation;
+use macros::{notation, Slots};
 
 mod macros;
 
@@ -199,7 +199,7 @@ notation!(
 		const magic: u32 = 0xCAFEBABEu32,
 		mut minor_version: u16,
 		mut major_version: u16,
-		const constant_pool_count: u16 = this.constant_pool.len() + 1,
+		const constant_pool_count: u16 = this.constant_pool.iter().map(Slots::slots).sum::<usize>() + 1,
 		mut constant_pool: Vec<CpInfo> {constant_pool_count - 1}; Some(&constant_pool),
 		mut access_flags: u16,
 		mut this_class: u16,
@@ -302,6 +302,18 @@ notation!(
 	}
 );
 
+/// `Long` and `Double` take up two entries of the constant pool: the index after theirs is unusable.
+impl Slots for CpInfo {
+	fn slots(&self) -> usize {
+		match self {
+			CpInfo::Long { .. } | CpInfo::Double { .. } => 2,
+			_ => 1,
+		}
+	}
+}
+
+impl Slots for VerificationTypeInfo {}
+
 notation!(
 	struct FieldInfo {
 		mut access_flags: u16,
@@ -327,7 +339,14 @@ fn pool_has_utf8(pool: Option<&Vec<CpInfo>>, index: u16, value: &[u8]) -> Result
 	let Some(pool) = pool else {
 		return Err(std::io::Error::other("expected to have constant pool at this point of reading"));
 	};
-	let Some(entry) = pool.get((index - 1) as usize) else {
+	// constant pool indices start at 1 and count slots, not entries
+	let mut at = 1;
+	let entry = pool.iter().find(|entry| {
+		let here = at == index as usize;
+		at += entry.slots();
+		here
+	});
+	let Some(entry) = entry else {
 		return Err(std::io::Error::other(format!("no constant pool entry at position {}", index)));
 	};
 	let CpInfo::Utf8 { bytes } = entry else {
